@@ -108,7 +108,8 @@ def cbLoop {S A E : Type} (body : Nat → S → A → (S × A) × Option E) : Li
     | ((st', acc'), none) => cbLoop body is st' acc'
     | r => r
 
-/-- continue with the state an operation reached (keeping the accumulator) unless it raised -/
+/-- continue with the state an operation reached unless it raised; a call that raises reports nothing, so the translated
+bodies hand over the empty accumulator `acc` for that case (whatever had been collected is dropped with the exception) -/
 def cbBind {S A E : Type} (r : S × Option E) (acc : A) (k : S → (S × A) × Option E) : (S × A) × Option E :=
   match r with
   | (s, some e) => ((s, acc), some e)
@@ -176,14 +177,14 @@ def readFromDisk {S E : Type} (o : FileOps S E) (st : S) : S × Option E :=
 def checkBadSk {S E : Type} (o : CbOps S E) (deleteBad : Bool) (st : S) : (S × List Nat) × Option E :=
   cbLoop (fun i st badIds =>
     (match o.readLen st (.batch i) with
-    | .error e => ((st, badIds), some e)
+    | .error e => ((st, []), some e)
     | .ok len0 =>
       let (unloadable, len1) := (match o.readLen st (.result i) with
         | .ok n => (false, n)
         | .error _ => (true, (0 : Int)))
       if (unloadable || (decide (len1 ≠ len0))) then
         if deleteBad then
-          (cbBind (o.remove st (.result i)) badIds fun st =>
+          (cbBind (o.remove st (.result i)) [] fun st =>
             let badIds := badIds ++ [i]
             ((st, badIds), none))
         else
@@ -207,5 +208,11 @@ def reapDispatch (farmer : Farmer) (wait sync : Bool) (overwrite cleanUp : Optio
 def reapDefaults : Bool × Bool × Option Bool × Option Bool × Bool := (false, true, (none : Option Bool), (none : Option Bool), false)
 
 def deleteAllRemoves : Bool := true
+
+def initAutoload (autoload isPrepared : Bool) : Bool := (autoload && isPrepared)
+
+def initAutoloadDefault : Bool := true
+
+def loadCropsAutoloads : Bool := true
 
 end Gen.Default
